@@ -55,3 +55,15 @@ PROPS["C07"] = dict(
     ],
     fuzz=[dict(target="FuzzC07", seconds=120)],
 )
+
+PROPS["C08"] = dict(
+    pkg="c08", level="exploration",
+    technique="differential testing of TextLayout against JSONLayout tokens over rapid-generated events and widths, with an independently computed header; native fuzzing of the same property",
+    level_text="Exploration: for generated events and widths -5..200 the text line must equal, byte for byte, the line assembled from an independent header (level, millisecond time from calendar fields, documented truncation rule) and the raw JSON member tokens of the same event (quotes dropped exactly for string fields, error texts and non-finite floats); one newline, no raw control byte, no panic for any width; also end-to-end with the width configured through Refresh.",
+    level_note="Trusted: JSONLayout's tokens as reference (validated independently in C07), the harness's header/truncation reimplementation, the generator's knowledge of which fields are string-like.",
+    rule="C07 event generator x widths -5..200, direct ToBytes and end-to-end through Refresh-configured console TextLayout",
+    steps=[
+        dict(test="^Test(Regress_C08|C08_Direct|C08_EndToEnd)$", quick=dict(checks=8000, timeout=900), thorough=dict(checks=40000, shards=12, timeout=3000)),
+    ],
+    fuzz=[dict(target="FuzzC08", seconds=120)],
+)
